@@ -621,6 +621,11 @@ def rule_pair_distance_covers(repo, rep):
           return S('sqsum', args[1][1], args[1][2])
         if short == 'sqrt' and args and tg(args[0]) == 'sqsum':
           return S('dist', args[0][1], args[0][2])
+        if short == 'square' and args and tg(args[0]) == 'emb':
+          return S('sq', args[0][1], args[0][2])
+        if short == 'power' and len(args) == 2 and tg(args[0]) == 'emb' \
+                and args[1] == 2:
+          return S('sq', args[0][1], args[0][2])
         if short == 'linalg.norm' or d.endswith('linalg.norm'):
           if args and tg(args[0]) == 'emb' and kwargs.get(
                   'axis', args[2] if len(args) > 2 else None) in (-1, 1):
